@@ -287,6 +287,7 @@ def r01_3(ctx, run, rule='R01.3'):
     else:
         ps, _ = explore(b)
         table = {}
+        cond_err = {}
         for p in ps:
             if p.end[0] != 'return':
                 continue
@@ -309,11 +310,19 @@ def r01_3(ctx, run, rule='R01.3'):
             elif is_call(r, 'FromResidual::from_residual'):
                 continue
             key = tagname.get(c[2], c[2]) if c[1] == 'eq' else 'otherwise'
+            if res == 'Err' and key != 'otherwise' and any(cc not in tc and cc[0][0] != 'discr' and not is_call(cc[0], 'Try::branch') for cc in p.conds):
+                # an explicit error for *some* entries of a valid kind, selected by a further test on the entry (its length, ...): whether the
+                # encoder ever writes such an entry is a question about values, which this table does not answer
+                cond_err.setdefault(key, []).append(next(show(cc[0])[:60] for cc in p.conds if cc not in tc and cc[0][0] != 'discr' and not is_call(cc[0], 'Try::branch')))
+                continue
             table.setdefault(key, set()).add(res)
         exp = {'NULL_TAG': {'Null'}, 'TRUE_TAG': {'Bool(true)'}, 'FALSE_TAG': {'Bool(false)'}, 'STRING_TAG': {'String'},
                'NUMBER_TAG': {'Number'}, 'CONTAINER_TAG': {'nested'}, 'otherwise': {'Err'}}
         for k, v in exp.items():
-            if table.get(k) == v:
+            if table.get(k) == v and cond_err.get(k):
+                run.undecided(rule, b.path, f'entry-arm[{k}]', f'-> {sorted(v)[0]}, but entries of this kind that satisfy a further test ({cond_err[k][0]}) are rejected with an explicit error: '
+                              'whether the encoder can write such an entry is not decided by this table', f'{b.file}:{b.line}')
+            elif table.get(k) == v:
                 run.proved(rule, b.path, f'entry-arm[{k}]', f'-> {sorted(v)[0]}')
             elif not table.get(k) or table.get(k) <= {None}:
                 run.undecided(rule, b.path, f'entry-arm[{k}]', f'expected {sorted(v)}; no arm for this tag was recognised (restructured?): not decided', f'{b.file}:{b.line}')
@@ -373,6 +382,18 @@ def check_header_write(f, run, rule, b, tag, count_ok=None):
                     cnt = strip_casts(c)
                     ok = is_call(cnt, 'len')
                     why = show(cnt)
+            elif isinstance(const_of(arg), int) and const_of(arg) == val:
+                # the bare tag (count 0) is the right header on a path that established that the container is empty
+                def _empty(c):
+                    t = c[0]
+                    if is_call(t, 'is_empty') and c[2] is True:
+                        return True
+                    if t[0] == 'bin' and t[1] == 'Eq' and c[2] is True and any(const_of(x) == 0 for x in (t[2], t[3])) and any(is_call(strip_casts(x), 'len') for x in (t[2], t[3])):
+                        return True
+                    if is_call(strip_casts(t), 'len') and c[1] == 'eq' and c[2] == 0:
+                        return True
+                    return False
+                ok = any(_empty(c) for c in p.conds)
         if not ok:
             run.violation(rule, b.path, 'header', f'header word written is {show(arg)}, expected {tag}{"" if tag.startswith("SCALAR") else " | element count"}', f'{b.file}:{b.line}')
             return
